@@ -90,6 +90,14 @@ def rand_cover(rng, avail):
         special = rng.choice([(1, ['1']), (1, ['0']), (2, ['11']), (2, ['1-', '-1']), (2, ['0-', '-0']), (2, ['10', '01'])])
         if len(avail) >= special[0]:
             return rng.sample(avail, special[0]), list(special[1])
+    if k < 0.52 and n >= 2:
+        # every row has exactly one literal (a 1 or a 0), the other positions don't-care; not every input is mentioned
+        cols = rng.sample(range(n), rng.randint(1, n))
+        lit = rng.choice('11110')
+        rows = [''.join(lit if j == c_ else '-' for j in range(n)) for c_ in cols]
+        if rng.random() < 0.3:
+            rows.append(rows[0])
+        return ins, rows
     rows = [''.join(rng.choice('01-') for _ in range(n)) for _ in range(rng.randint(1, 4))]
     return ins, rows
 
@@ -142,7 +150,8 @@ def gen_model(rng, name, nin, submodels, top, ncov, nflops, vector_io):
         if rng.random() < 0.3 or not DFFS:
             m.latches.append((d, q, rng.choice('0123')))
         else:
-            cell = rng.choice(DFFS)
+            # the same cell type is used several times in one model, every instance with its own pins
+            cell = m.flops[-1][0] if (m.flops and rng.random() < 0.5) else rng.choice(DFFS)
             m.flops.append((cell, d, rng.choice(avail), rng.choice(avail), rng.choice(avail), q))
     cands = sigs + qs
     nout = rng.randint(1, min(4, len(cands)))
